@@ -15,7 +15,7 @@ func init() {
 		Text: "In every function of restlicodec that calls enterMapScope/enterArrayScope on a missingFieldsTracker: on every CFG path, " +
 			"each enter is followed by exactly one exitScope before the next enter, the loop back-edge or a non-error return; " +
 			"no exitScope without an outstanding enter.  Returns whose error result is certainly non-nil are exempt (a reader is dead after an error).",
-		Props: []string{"C06", "C04"},
+		Props: []string{"C06", "C04", "C07", "C11"},
 		Floor: map[string]int{"v2": 7, "root": 7},
 		Run:   runR061,
 	})
